@@ -11,7 +11,7 @@ META = {
     "harness_bins": ["c19"],
     "extract": "C19.v",
     "technique": "Coq proof: invariant of a FileId-level model of nls' World bookkeeping (source cache, analysis registry, imports/rev_imports, failed_imports, invalidate/typecheck recursion) over every didOpen/didChange/didClose history; model tied to the real `nls` binary by differential replay of histories over JSON-RPC (per-step diagnostics publications), and a direct oracle comparing every answer with a freshly started server",
-    "level_text": "Theorems (coq/Props/C19.v), for every didOpen/didChange/didClose history of a conforming client whose documents' imports respect one DAG order, every iteration order of the server's hash maps and every recursion budget above the DAG depth: the server model never crashes (C19_no_crash); every cached analysis of a current file was computed from the current text and its diagnostics equal those recomputed from the final documents (C19_analysis_fresh); two histories ending in the same documents leave the same analyses and every open document has one (C19_answers_history_independent, C19_open_analysed); rev_imports/failed_imports cover what cached analyses read (C19_rev_imports_complete, C19_failed_imports_complete); last published diagnostics of current files are, as duplicate-free lists, the fresh ones and every open document is published (C19_no_dup_no_stale). C19_no_dup_no_stale holds for the code as it is now on every such history, and only on histories without didClose for the code before fix 36b39fb. Refuted, with replayed witnesses: C19_closed_buffer_refuted and C19_self_import_diverges (code before fixes 36b39fb / 257606a; the check verifies on every run that the code under test follows the fixed configuration), C19_cycle_order_refuted (cyclic imports, still the case: known finding). The theorems are about a hand-written FileId-level model of SourceCache + World::{add_file,update_file,close_file,invalidate,parse,typecheck,typecheck_uncached} + the notification handlers; it is tied to lsp/nls by running the same histories on the extracted model and on the `nls` binary rebuilt from /repo (JSON-RPC, background evaluation off), comparing the multiset of publishDiagnostics of every step (and the whole bookkeeping state when hook H8 is present); independently every history is followed by a fresh server shown the final documents, and pulled diagnostics, hover, definition, references, completion and documentSymbol at every identifier are compared (direct oracle).",
+    "level_text": "Theorems (coq/Props/C19.v), for every didOpen/didChange/didClose history of a conforming client whose documents' imports respect one DAG order, every iteration order of the server's hash maps and every recursion budget above the DAG depth: the server model never crashes (C19_no_crash); every cached analysis of a current file was computed from the current text and its diagnostics equal those recomputed from the final documents (C19_analysis_fresh); two histories ending in the same documents leave the same analyses and every open document has one (C19_answers_history_independent, C19_open_analysed); rev_imports/failed_imports cover what cached analyses read (C19_rev_imports_complete, C19_failed_imports_complete); last published diagnostics of current files are, as duplicate-free lists, the fresh ones and every open document is published (C19_no_dup_no_stale). C19_no_dup_no_stale holds for the code as it is now on every such history, and only on histories without didClose for the code before fix 36b39fb. Refuted, with replayed witnesses: C19_closed_buffer_refuted and C19_self_import_diverges (code before fixes 36b39fb / 257606a; the check verifies on every run that the code under test follows the fixed configuration), C19_cycle_order_refuted (cyclic imports, still the case: known finding). The theorems are about a hand-written FileId-level model of SourceCache + World::{add_file,update_file,close_file,invalidate,parse,typecheck,typecheck_uncached} + the notification handlers; it is tied to lsp/nls by running the same histories on the extracted model and on the `nls` binary rebuilt from /repo (JSON-RPC, background evaluation off), comparing after every step the multiset of publishDiagnostics and (hook H8, `verif/state`) the whole bookkeeping state: files, name-id table, cached analyses, imports, rev_imports, failed_imports, file_uris; independently every history is followed by a fresh server shown the final documents, and pulled diagnostics, hover, definition, references, completion and documentSymbol at every identifier are compared (direct oracle).",
     "level_note": "Trusted: Coq kernel; extraction (ExtrOcamlBasic only); the reading of world.rs/files.rs/cache.rs in coq/Lsp/World.v (document contents abstracted to text id + import list + ok/type error/parse error; one directory, so failed_imports' base-name keying is not exercised; disk fixed during a history; Nickel files only); harness bin c19 (own JSON-RPC client, document template) and the classification of diagnostics messages into 5 classes; the nls binary cargo builds from /repo. Partial: the theorems assume one DAG order on imports for the whole history (histories whose import graph is acyclic at every moment but not compatible with a single order, cyclic imports and self imports are outside: cyclic imports are a refuted class = known finding; self imports are handled by the code since fix 257606a and covered by the tie and the oracle only) and a client that sends didChange only for open documents; contents of hover/definition/references/completion/symbol answers are not modelled (direct oracle only); not covered: background evaluation, non-Nickel imports, contract configs, file watcher, disk changes during a session. Exhaustive histories go to length 3 (11-symbol alphabet) and 4 (7 symbols) over 3 disk configurations, not length 5 as planned in DESIGN.md (one server process per history).",
 }
 
@@ -388,8 +388,11 @@ def compare(ck, cases, impl_out, model_out, patched_out, hooks=False):
                 if cyc:
                     ck.count("cyclic_histories_where_hash_order_shows_in_state")
                 else:
+                    ra, ma = r["state"].split(" || "), mstate.strip().split(" || ")
+                    k = next((i for i, (x, y) in enumerate(zip(ra, ma)) if x != y), min(len(ra), len(ma)))
                     ck.obligation("correspondence:state-model-vs-nls", "correspondence", False,
-                                  "case %s\nimpl  %s\nmodel %s" % (case, r["state"][:900], mstate.strip()[:900]))
+                                  "case %s\nfirst difference after step %d\nimpl  %s\nmodel %s" % (
+                                      case, k + 1, (ra[k] if k < len(ra) else "-")[:900], (ma[k] if k < len(ma) else "-")[:900]))
         if crash and mkind == "-" or (not crash and mkind != "-"):
             ck.obligation("correspondence:model-vs-nls-crash", "correspondence", False,
                           "case %s\nimpl crash %s\nmodel %s" % (case, crash, mkind))
